@@ -36,6 +36,18 @@ CHECKS = {
             "Probe commands' execute bodies are simulator stubs (they always read every referenced result at least "
             "once); everything else is mpilot's real code from the current working tree. numpy/ply/six trusted.",
             "DESIGN.md 5/C01"),
+    "C14": ("evalsim", "exploration",
+            "deterministic simulation: seeded search over cyclic reference graphs x reference kinds x textual orders x "
+            "pull plans on the real evaluator; outcome and bounded-progress (nesting / entry count) invariants",
+            "Seeded exploration of digraphs with at least one cycle (self-loop, 2-cycle, k-cycle, several cycles, tails "
+            "leading in and out, separate acyclic components; direct, list and nested references; every textual order "
+            "and construction route). run() must raise the recursive-model error; it must not return, raise anything "
+            "else, show a RecursionError anywhere in the exception chain, or nest execute deeper than 2n+5 / enter "
+            "execute more than 4n+8 times (bounded progress). Sampling; the <=5-node space is small but the check "
+            "does not claim to enumerate it.",
+            "Probe execute bodies are simulator stubs; only Program.run() is judged (direct result reads on a cyclic "
+            "program are recorded, not judged).",
+            "DESIGN.md 5/C14"),
 }
 
 PENDING = {}
